@@ -226,6 +226,60 @@ def rule_strict_numbers(chk, prog, rid):
     chk.floor(rid, n, 100, "numeric constructions examined")
 
 
+def rule_trailing_after_number(chk, prog, rid):
+    """C16: a complete top-level number followed by a byte that cannot continue it"""
+    from .tokrules import F_TRAILING
+    chk.rule(rid, "a top-level number token followed by a byte that neither continues the number nor is white space (token buffer "
+                  "modelled, bytes fed one per call, so the number and the byte may arrive in different calls): with STRICT | ALLOW_TRAILING_CHARS and in default mode the number is returned with "
+                  "success and the byte is left unconsumed (the reported end is the number's end)")
+    ws = {0x20, 0x09, 0x0A, 0x0D}
+    n = 0
+    for flags, mname in ((F_STRICT | F_TRAILING, "strict+allow_trailing"), (0, "default")):
+        data = get(prog, flags)
+        NT, nodes, parent, truncated, chosen, nents = data
+        describe(chk, "numbers_%s" % mname.replace("+", "_"), data)
+        bad = None
+        cnt = 0
+        opaque = set()
+        for node, res in nodes.items():
+            cfg, text = node
+            if text is None or not RFC_NUMBER.match(text) or cfg[0] != 0:
+                continue
+            if len(cfg[1]) != 1:
+                continue          # not the top level
+            for cname, o in res:
+                if cname != "other":
+                    continue
+                if getattr(o, "opaque", None):
+                    opaque.add(o.opaque[0])
+                    continue
+                bs = [b % 256 for b in o.bytes if (b % 256) not in ws and (b % 256) != 0 and not ((b % 256) == 0x2F and not (flags & F_STRICT))]
+                if not bs or not _in_range(o):
+                    continue
+                cnt += 1
+                good = o.err == 0 and o.ret_nonnull and o.consumed == 0
+                if not good and bad is None:
+                    bad = (node, bs[0], o)
+        n += cnt
+        sig = "top-level number then a trailing byte, %s" % mname
+        if bad:
+            node, b, o = bad
+            w = numtok.witness(parent, node)
+            chk.refuted(rid, "json_tokener_parse_ex", sig, "json_tokener.c",
+                        "after the top-level number %r the byte %r gives status %s (value returned: %s, trailing bytes consumed: %s) in %s mode; "
+                        "the number is complete and the byte is merely trailing"
+                        % (_show(w), chr(b) if 32 <= b < 127 else "\\x%02x" % b, NT.err_name.get(o.err, o.err), o.ret_nonnull, o.consumed, mname),
+                        {"witness": _show(w), "byte": b})
+        elif cnt == 0:
+            chk.undecided(rid, "json_tokener_parse_ex", sig, "json_tokener.c", "no (top-level number, trailing byte) pair was explored")
+        else:
+            chk.proven(rid, "json_tokener_parse_ex", sig, "json_tokener.c", "%d (number, byte class) pairs: value returned, byte left unconsumed" % cnt)
+        if opaque:
+            chk.undecided(rid, "json_tokener_parse_ex", "%s: calls on the token text that are not modelled" % mname, "json_tokener.c",
+                          "the token buffer is passed to %s" % sorted(opaque))
+    chk.floor(rid, n, 10, "(top-level number, trailing byte class) pairs")
+
+
 def _shape(t):
     """why a text is not an RFC number (one of a few classes, used as the obligation's name)"""
     s = t[1:] if t.startswith(b"-") else t
